@@ -648,6 +648,7 @@ def gen_listing() -> typing.Tuple[bool, str]:
             ('k_path_pure', 'true' if path_effects() == [] else 'false'),
             ('k_ns_check', ns_check_flag()),
             ('k_fix_constref', 'true' if dep_variant == 'fix2' else 'false'),
+            ('k_stem_check', stem_check_flag()),
         ]
         data = lang_data()
         parts = ['Definition the_code : code := {|\n%s |}.' % ';\n'.join('  %s := %s' % f for f in fields)]
@@ -810,8 +811,9 @@ PIN_VARIANTS = {
     # optional functions: when the tree has them they must have the pinned shape
     'nscheck': {'fix': [(NS, '_NamespaceFactory.check_namespace_files_are_not_type_files')]},
     'typetpl': {'fix': [(JL, 'DSDLTemplateLoader._type_templates'), (JL, 'DSDLTemplateLoader.type_to_template')]},
+    'stemcheck': {'fix': [(NS, '_checked_namespace_file_stem')]},
 }
-OPTIONAL_PARTS = ('nscheck', 'typetpl')
+OPTIONAL_PARTS = ('nscheck', 'typetpl', 'stemcheck')
 PIN_FILE = os.path.join(os.path.dirname(os.path.abspath(__file__)), 'pins', 'c08_enum.json')
 
 
@@ -858,6 +860,19 @@ def ns_check_flag() -> str:
     body = _strip_doc(fn.body)
     if not (isinstance(body[-1], ast.Return) and isinstance(body[-2], ast.Expr) and body[-2].value is calls[0]):
         raise Unsupported('the clash check is no longer the last statement of build_namespace_tree before its return')
+    return 'true'
+
+
+def stem_check_flag() -> str:
+    """'true' iff Namespace.__init__ passes the configured namespace file stem through the (pinned) _checked_namespace_file_stem"""
+    st = _optional_part_state('stemcheck')
+    init = _u(find_function(gen.parse_repo(NS), 'Namespace', '__init__'))
+    used = '_checked_namespace_file_stem(' in init
+    if st == 'absent' and not used:
+        return 'false'
+    wanted = 'output_stem = _checked_namespace_file_stem(target_language.get_config_value(Language.WKCV_NAMESPACE_FILE_STEM, self.DefaultOutputStem))'
+    if st != 'fix' or wanted not in init or init.count('_checked_namespace_file_stem(') != 1:
+        raise Unsupported('namespace file stem check: unknown shape or use')
     return 'true'
 
 
